@@ -262,6 +262,9 @@ def g_prout(rng, cfg):
         kw["relative_target_port_id"] = rng.randrange(1 << 16)
         if rng.random() < 0.6:
             kw["transport_id"] = {"protocol_id": 5, "iscsi_name": "iqn.2026-10.verif:mv"}
+    elif "transport_ids" in kw and rng.random() < 0.3:
+        # an application that fills in every documented key, used or not by this service action
+        kw["transport_id"] = {"protocol_id": 5, "iscsi_name": "iqn.2026-10.verif:extra"}
     args = [sa]
     if rng.random() < 0.6:
         kw["scope"] = 0
@@ -318,13 +321,19 @@ def _copy(x):
 
 def g_xcopy4(rng, cfg):
     kw = {}
+    nt = 0
     if rng.random() < 0.7:
-        kw["target_descriptor_list"] = [_copy(TGT_DESC) for _ in range(rng.randrange(3))]
+        nt = rng.randrange(4)
+        kw["target_descriptor_list"] = [_copy(TGT_DESC) for _ in range(nt)]
     if rng.random() < 0.7:
         segs = []
         for _ in range(rng.randrange(3)):
             s = _copy(SEG_B2B)
             s["block_device_number_of_blocks"] = rng.randrange(1 << 16)
+            if nt:
+                # segments refer to the descriptors of this very command by index
+                s["source_target_descriptor_id"] = rng.randrange(nt)
+                s["destination_target_descriptor_id"] = rng.randrange(nt)
             segs.append(s)
         kw["segment_descriptor_list"] = segs
     if rng.random() < 0.4:
@@ -332,7 +341,7 @@ def g_xcopy4(rng, cfg):
     if rng.random() < 0.4:
         kw["priority"] = rng.randrange(8)
     if rng.random() < 0.3:
-        kw["inline_data"] = {"$b": [rng.randrange(1000), rng.choice([0, 1, 4, 9])]}
+        kw["inline_data"] = {"$b": [rng.randrange(1000), rng.choice([0, 1, 4, 6, 9])]}
     if rng.random() < 0.2:
         kw["nrcr"] = 1
     if rng.random() < 0.2:
@@ -347,10 +356,21 @@ def _spc5(d):
 
 def g_xcopy5(rng, cfg):
     kw = {}
+    nt = 0
     if rng.random() < 0.7:
-        kw["cscd_descriptor_list"] = [_spc5(TGT_DESC) for _ in range(rng.randrange(3))]
+        nt = rng.randrange(4)
+        kw["cscd_descriptor_list"] = [_spc5(TGT_DESC) for _ in range(nt)]
     if rng.random() < 0.7:
-        kw["segment_descriptor_list"] = [_spc5(SEG_B2B) for _ in range(rng.randrange(3))]
+        segs = []
+        for _ in range(rng.randrange(3)):
+            s = _spc5(SEG_B2B)
+            if nt:
+                s["source_cscd_descriptor_id"] = rng.randrange(nt)
+                s["destination_cscd_descriptor_id"] = rng.randrange(nt)
+            segs.append(s)
+        kw["segment_descriptor_list"] = segs
+    if rng.random() < 0.3:
+        kw["inline_data"] = {"$b": [rng.randrange(1000), rng.choice([0, 1, 4, 6, 9])]}
     if rng.random() < 0.4:
         kw["list_identifier"] = rng.randrange(1 << 16)
     if rng.random() < 0.4:
